@@ -61,7 +61,11 @@ func (c *Distinct) Add(retraction bool, value octosql.Value) bool {
 		c.wrapped.Add(false, value)
 	} else if item.count == 0 {
 		c.items.Remove(value)
-		c.wrapped.Add(true, value)
+		// Only a retraction that takes the value from one copy to none removes it from the wrapped aggregate.
+		// An addition that cancels an earlier out-of-order retraction (count -1 -> 0) never made it visible.
+		if retraction {
+			c.wrapped.Add(true, value)
+		}
 	}
 	return c.items.Size() == 0
 }
